@@ -4,28 +4,31 @@
 #   1. the patch applies and the pinned suite (unit + integration tests, as the baseline runs them) passes with it,
 #   2. the demonstration fails with the change,
 #   3. the demonstration passes without it.
-# Scratch: /tmp/wt/confirm (worktree) and /tmp/seedtarget (cargo target), both removed by the caller when done.
+# Scratch: /tmp/wt/confirm$LANE (worktree) and /tmp/seedtarget$LANE (cargo target), both removed by the caller when done.
+# LANE=<k> gives parallel lanes their own scratch; JOBS=<n> limits cargo parallelism.
 set -u
 D=$1; OUT=$2
-WT=/tmp/wt/confirm
-export CARGO_TARGET_DIR=/tmp/seedtarget CARGO_NET_OFFLINE=true
+L=${LANE:-}
+WT=/tmp/wt/confirm$L
+export CARGO_TARGET_DIR=/tmp/seedtarget$L CARGO_NET_OFFLINE=true
+J=${JOBS:-16}
 if [ ! -d $WT ]; then git -C /repo worktree add --detach $WT HEAD >/dev/null 2>&1 || exit 3; fi
 cd $WT && git checkout -q -- . && git clean -fdq
 head=$(git -C /repo rev-parse --short HEAD)
-git apply --check "$D/patch.diff" 2>/tmp/confirm.err || { echo "{\"seed\": \"$D\", \"applies\": false}" > $OUT; exit 1; }
+git apply --check "$D/patch.diff" 2>/tmp/confirm$L.err || { echo "{\"seed\": \"$D\", \"applies\": false}" > $OUT; exit 1; }
 git apply "$D/patch.diff"
 # 1. suite with the change
-cargo test --workspace --no-fail-fast --offline --lib --bins --tests > /tmp/confirm.suite.log 2>&1; s_rc=$?
-passed=$(grep "^test result" /tmp/confirm.suite.log | sed 's/.* \([0-9]*\) passed.*/\1/' | paste -sd+ | bc)
-failed=$(grep "^test result" /tmp/confirm.suite.log | sed 's/.* \([0-9]*\) failed.*/\1/' | paste -sd+ | bc)
+cargo test -j $J --workspace --no-fail-fast --offline --lib --bins --tests > /tmp/confirm$L.suite.log 2>&1; s_rc=$?
+passed=$(grep "^test result" /tmp/confirm$L.suite.log | sed 's/.* \([0-9]*\) passed.*/\1/' | paste -sd+ | bc)
+failed=$(grep "^test result" /tmp/confirm$L.suite.log | sed 's/.* \([0-9]*\) failed.*/\1/' | paste -sd+ | bc)
 # 2. demo with the change
 mkdir -p palette/tests; cp "$D/demo.rs" palette/tests/demo_seed.rs
-cargo test -p palette --all-features --offline --test demo_seed > /tmp/confirm.demo_with.log 2>&1; dw_rc=$?
-dw=$(grep "^test result" /tmp/confirm.demo_with.log | tail -1)
+cargo test -j $J -p palette --all-features --offline --test demo_seed > /tmp/confirm$L.demo_with.log 2>&1; dw_rc=$?
+dw=$(grep "^test result" /tmp/confirm$L.demo_with.log | tail -1)
 # 3. demo without the change
 git apply -R "$D/patch.diff"
-cargo test -p palette --all-features --offline --test demo_seed > /tmp/confirm.demo_without.log 2>&1; dn_rc=$?
-dn=$(grep "^test result" /tmp/confirm.demo_without.log | tail -1)
+cargo test -j $J -p palette --all-features --offline --test demo_seed > /tmp/confirm$L.demo_without.log 2>&1; dn_rc=$?
+dn=$(grep "^test result" /tmp/confirm$L.demo_without.log | tail -1)
 rm -f palette/tests/demo_seed.rs
 git checkout -q -- . && git clean -fdq
 python3 - "$OUT" <<EOF
